@@ -93,7 +93,9 @@ func c06set(key string, v c06val, meta bool, create, overwrite bool) c06op {
 				pending = r0.metaUnknown
 			}
 			st := m.set(key, v.kind, v.val, v.num, v.slice, km, create, overwrite)
-			delete(m.ghost, key)
+			if _, stored := m.recs[key]; stored {
+				delete(m.ghost, key) // a Set that stored nothing (create=false on an absent key) leaves the hidden record in place
+			}
 			if st == "NOTHING_CHANGED" && overwrite && (meta || pending) {
 				// same value, metadata repeated in the request: UPDATED or NOTHING_CHANGED is not documented
 				return fmt.Sprintf("EC=- [%s:", key) + unspecified
